@@ -736,3 +736,249 @@ Proof.
   now rewrite (lookup_stamp_root now tm t (fst it) (snd it) Hd H1 H3).
 Qed.
 Print Assumptions tar_roundtrip_nothing_hidden.
+
+(* ================================================================ zip: building the directory *)
+
+Definition zip_lfile (d : bytes) (m : option Z) : node := File [] None.
+Definition zip_dm (m : option Z) : option Z := None.
+Definition shape : node -> node := full zip_lfile zip_dm.
+Definition zP (c : str) : Prop := good c /\ has_char nul c = false.
+
+Definition zname (it : list str * node) : str :=
+  zip_member_name (walk_path (fst it)) (is_dir (snd it)).
+
+Definition zstep_o (b : node) (it : list str * node) : option node :=
+  match zstep b (zname it) with
+  | (b', Ok _) => Some b'
+  | _ => None
+  end.
+
+Lemma has_char_join x sep l :
+  has_char x sep = false -> Forall (fun s => has_char x s = false) l ->
+  has_char x (join sep l) = false.
+Proof.
+  intros Hs Hl. induction Hl as [|s r Hx Hr IH]; [reflexivity|].
+  destruct r as [|s2 r2]; [exact Hx|].
+  rewrite join_cons by discriminate. rewrite !has_char_app, Hx, Hs, IH. reflexivity.
+Qed.
+
+Lemma zP_good p : Forall zP p -> Forall good p.
+Proof. intro H. eapply Forall_impl; [|exact H]. intros c [Hc _]. exact Hc. Qed.
+
+Lemma zP_nonul p : Forall zP p -> has_char nul (to_path false p) = false.
+Proof.
+  intro H. unfold to_path. cbn [app]. apply has_char_join; [reflexivity|].
+  eapply Forall_impl; [|exact H]. intros c [_ Hc]. exact Hc.
+Qed.
+
+Lemma zname_eq p n : p <> [] -> Forall good p ->
+  zname (p, n) = to_path false p ++ (if is_dir n then [slash] else []).
+Proof.
+  intros Hne Hg. unfold zname. cbn [fst snd]. destruct (is_dir n).
+  - apply zip_member_name_dir; assumption.
+  - rewrite app_nil_r. apply zip_member_name_file; assumption.
+Qed.
+
+Lemma pif_dir a : forall b pre es m,
+  lookup b (pre ++ a) = Some (Dir es m) -> prefix_is_file b pre a = false.
+Proof.
+  induction a as [|x a IH]; intros b pre es m H; [reflexivity|].
+  cbn [prefix_is_file].
+  assert (E : pre ++ x :: a = (pre ++ [x]) ++ a) by (rewrite <- app_assoc; reflexivity).
+  rewrite E in H. rewrite lookup_app in H.
+  destruct (lookup b (pre ++ [x])) as [[dd mm|e2 m2]|] eqn:El; try discriminate.
+  - destruct a; simpl in H; discriminate.
+  - apply (IH b (pre ++ [x]) es m). rewrite lookup_app, El. exact H.
+Qed.
+
+Lemma status_new d : forall b c es m, lookup b d = Some (Dir es m) -> assoc c es = None ->
+  status_of b (d ++ [c]) = Missing.
+Proof.
+  induction d as [|a d IH]; intros b c es m Hl Ha.
+  - simpl in Hl. inversion Hl; subst. simpl. now rewrite Ha.
+  - simpl in Hl. destruct b as [|e0 m0]; [discriminate|].
+    destruct (assoc a e0) as [ch|] eqn:E; [|discriminate].
+    simpl. rewrite E. eapply IH; eauto.
+Qed.
+
+Lemma zmakedirs_existing b d es m : Forall good d -> lookup b d = Some (Dir es m) ->
+  zmakedirs b (to_path false d) = (b, Ok tt).
+Proof.
+  intros Hg Hl. unfold zmakedirs. rewrite resolve_comps_nf by exact Hg.
+  rewrite (pif_dir d b [] es m Hl). now rewrite (mkdirs_exists d b [] _ Hl).
+Qed.
+
+Lemma pif_new b d c es m : lookup b d = Some (Dir es m) -> assoc c es = None ->
+  prefix_is_file b [] (d ++ [c]) = false.
+Proof.
+  intros Hl Ha. rewrite pif_app, (pif_dir d b [] es m Hl). cbn [app orb prefix_is_file].
+  rewrite lookup_snoc, Hl, Ha. reflexivity.
+Qed.
+
+Lemma zmakedirs_new b d c es m : Forall good (d ++ [c]) ->
+  lookup b d = Some (Dir es m) -> assoc c es = None ->
+  zmakedirs b (to_path false (d ++ [c]) ++ [slash]) = (put b (d ++ [c]) empty_dir, Ok tt).
+Proof.
+  intros Hg Hl Ha. unfold zmakedirs, resolve. rewrite comps_snoc_slash, resolve_snoc_empty.
+  fold (resolve (comps (to_path false (d ++ [c])))). rewrite resolve_comps_nf by exact Hg.
+  rewrite (pif_new b d c es m Hl Ha). rewrite mkdirs_app, (mkdirs_exists d b [] _ Hl).
+  cbn [app mkdirs]. rewrite lookup_snoc, Hl, Ha. reflexivity.
+Qed.
+
+Lemma zcreate_new b d c es m : Forall good (d ++ [c]) ->
+  lookup b d = Some (Dir es m) -> assoc c es = None ->
+  zcreate b (to_path false (d ++ [c])) = (put b (d ++ [c]) (File [] None), Ok tt).
+Proof.
+  intros Hg Hl Ha. unfold zcreate. rewrite resolve_comps_nf by exact Hg.
+  rewrite (status_new d b c es m Hl Ha). rewrite removelast_app1, Hl. reflexivity.
+Qed.
+
+Lemma zstep_spec : forall b d c n es m,
+  Forall zP (d ++ [c]) -> lookup b d = Some (Dir es m) -> assoc c es = None ->
+  zstep_o b (d ++ [c], n) = Some (put b (d ++ [c]) (lf zip_lfile zip_dm n)).
+Proof.
+  intros b d c n es m HP Hl Ha. pose proof (zP_good _ HP) as Hg.
+  pose proof (zP_nonul _ HP) as Hn.
+  unfold zstep_o. rewrite zname_eq by first [apply snoc_ne|exact Hg]. unfold zstep.
+  destruct n as [dd mm|e2 mm]; cbn [is_dir lf].
+  - rewrite app_nil_r, Hn. rewrite ends_c_to_path by first [exact Hg|apply snoc_ne].
+    apply Forall_app in Hg as [Hgd Hgc]. inversion Hgc as [|? ? Hc _]; subst.
+    unfold dirname. rewrite psplit_snoc by assumption. cbn [fst].
+    rewrite (zmakedirs_existing b d es m Hgd Hl).
+    rewrite (zcreate_new b d c es m); auto. apply Forall_app; auto.
+  - rewrite has_char_app, Hn. cbn [has_char existsb orb]. 
+    replace (ceqb nul slash) with false by reflexivity. cbn [orb].
+    rewrite ends_c_app, ceqb_refl.
+    rewrite (zmakedirs_new b d c es m Hg Hl Ha). reflexivity.
+Qed.
+
+Lemma zip_build_run : forall items b b',
+  run zstep_o b items = Some b' -> zip_build b (map zname items) = (b', Ok tt).
+Proof.
+  induction items as [|it r IH]; intros b b' H.
+  - simpl in H. inversion H. reflexivity.
+  - cbn [run] in H. cbn [map zip_build]. unfold zstep_o in H.
+    destruct (zstep b (zname it)) as [b1 [u| |]]; try discriminate. now apply IH.
+Qed.
+
+Lemma names_ok_dir ents m :
+  names_ok (Dir ents m) = forallb (fun e => name_ok (fst e) && names_ok (snd e)) ents.
+Proof.
+  cbn [names_ok]. induction ents as [|[k c] r IH]; [reflexivity|].
+  cbn [forallb fst snd]. now rewrite IH.
+Qed.
+
+Lemma names_ok_tok : forall t, names_ok t = true -> tok (fun c => has_char nul c = false) t.
+Proof.
+  induction t as [d m|ents m IH] using node_ind'; intro H; [exact I|].
+  rewrite names_ok_dir in H. rewrite forallb_forall in H. apply tok_dir.
+  rewrite Forall_forall in *. intros e He. specialize (H e He).
+  apply andb_true_iff in H as [H1 H2]. split; [|now apply IH].
+  unfold name_ok in H1. apply andb_true_iff in H1 as [_ H1]. now apply negb_true_iff in H1.
+Qed.
+
+Lemma zip_build_bfs ents m : wf_node (Dir ents m) -> names_ok (Dir ents m) = true ->
+  zip_build empty_dir (map zname (bfs (Dir ents m))) =
+  (Dir (map (fun e => (fst e, shape (snd e))) ents) None, Ok tt).
+Proof.
+  intros W N. apply zip_build_run.
+  apply (run_bfs zip_lfile zip_dm zP zstep_o zstep_spec ents m W).
+  apply (tok_and good (fun c => has_char nul c = false)); [now apply tok_wf|now apply names_ok_tok].
+Qed.
+
+(* ================================================================ zip: bytes and times by name *)
+
+Lemma decorate_dir ms pre ents m :
+  decorate ms pre (Dir ents m) =
+  VDir (map (fun e => (fst e, decorate ms (pre ++ [fst e]) (snd e))) ents)
+       (match pre with
+        | [] => None
+        | _ => option_map m_mt (zfind ms (to_path false pre ++ [slash]))
+        end).
+Proof.
+  cbn [decorate]. f_equal. induction ents as [|[k c] r IH]; [reflexivity|].
+  cbn [map fst snd]. now rewrite IH.
+Qed.
+
+Lemma embed_dir ents m :
+  embed (Dir ents m) = VDir (map (fun e => (fst e, embed (snd e))) ents) m.
+Proof.
+  cbn [embed]. f_equal. induction ents as [|[k c] r IH]; [reflexivity|].
+  cbn [map fst snd]. now rewrite IH.
+Qed.
+
+Lemma shape_dir ents m : shape (Dir ents m) = Dir (map (fun e => (fst e, shape (snd e))) ents) None.
+Proof. unfold shape. now rewrite full_dir. Qed.
+
+Lemma zname_inj t : wf_node t -> forall it it', In it (bfs t) -> In it' (bfs t) ->
+  zname it = zname it' -> it = it'.
+Proof.
+  intros W [p n] [p' n'] H H' E.
+  destruct (bfs_item t W _ H) as (H1 & H2 & H3). destruct (bfs_item t W _ H') as (H1' & H2' & H3').
+  cbn [fst snd] in *. rewrite !zname_eq in E by assumption.
+  assert (Ep : p = p').
+  { destruct (is_dir n), (is_dir n').
+    - apply app_inv_tail in E. now apply to_path_inj.
+    - apply (f_equal (ends_c slash)) in E. rewrite ends_c_app, ceqb_refl, app_nil_r in E.
+      rewrite ends_c_to_path in E by assumption. discriminate.
+    - apply (f_equal (ends_c slash)) in E. rewrite ends_c_app, ceqb_refl, app_nil_r in E.
+      rewrite ends_c_to_path in E by assumption. discriminate.
+    - rewrite !app_nil_r in E. now apply to_path_inj. }
+  subst p'. rewrite H3 in H3'. inversion H3'. reflexivity.
+Qed.
+
+Section ZipFind.
+  Variables (now : Z) (tm : Z -> Z) (t : node).
+  Hypothesis W : wf_node t.
+  Let ms := map (store tm) (zip_members now t).
+
+  Lemma zfind_item it : In it (bfs t) -> zfind ms (zname it) = Some (store tm (zip_member_of now it)).
+  Proof.
+    intro H. unfold zfind. apply find_unique.
+    - rewrite <- in_rev. unfold ms, zip_members. now apply in_map, in_map.
+    - apply str_eqb_refl.
+    - intros y Hy E. rewrite <- in_rev in Hy. unfold ms, zip_members in Hy.
+      rewrite map_map in Hy. apply in_map_iff in Hy as (it' & <- & Hit').
+      apply str_eqb_eq in E. change (zname it' = zname it) in E.
+      now rewrite (zname_inj t W it' it Hit' H E).
+  Qed.
+
+  Lemma decorate_sub : forall s pre, pre <> [] -> lookup t pre = Some s ->
+    decorate ms pre (shape s) = embed (stamp now tm s).
+  Proof.
+    induction s as [d m|ents m IH] using node_ind'; intros pre Hne Hl.
+    - assert (Hin : In (pre, File d m) (bfs t)) by (apply bfs_complete; auto).
+      destruct (bfs_item t W _ Hin) as (_ & Hg & _). cbn [fst] in Hg.
+      pose proof (zfind_item _ Hin) as Hz. rewrite zname_eq in Hz by assumption.
+      cbn [is_dir] in Hz. rewrite app_nil_r in Hz.
+      change (shape (File d m)) with (File [] None). cbn [decorate]. rewrite Hz. reflexivity.
+    - assert (Hin : In (pre, Dir ents m) (bfs t)) by (apply bfs_complete; auto).
+      destruct (bfs_item t W _ Hin) as (_ & Hg & _). cbn [fst] in Hg.
+      pose proof (zfind_item _ Hin) as Hz. rewrite zname_eq in Hz by assumption.
+      cbn [is_dir] in Hz.
+      rewrite shape_dir, decorate_dir, stamp_dir, embed_dir, Hz.
+      destruct pre as [|c0 pre0]; [congruence|]. cbn [option_map store zip_member_of m_mt snd].
+      f_equal. rewrite !map_map. apply map_ext_in. intros e He. cbn [fst snd]. f_equal.
+      rewrite Forall_forall in IH. apply (IH e He); [apply snoc_ne|].
+      rewrite lookup_snoc, Hl. apply In_assoc; [|now destruct e].
+      pose proof (wf_lookup _ _ _ W Hl) as Wd. now apply wf_node_dir in Wd as (Hnd & _).
+  Qed.
+End ZipFind.
+
+Theorem zip_roundtrip : forall now tm t, wf t -> names_ok t = true ->
+  zip_read (map (store tm) (zip_members now t)) =
+  {| zv_first := Ok tt; zv_tree := embed (stamp_root now tm t) |}.
+Proof.
+  intros now tm t [Hd W] N. destruct t as [|ents m]; [discriminate|].
+  unfold zip_read.
+  replace (map m_name (map (store tm) (zip_members now (Dir ents m))))
+    with (map zname (bfs (Dir ents m)))
+    by (unfold zip_members; rewrite !map_map; reflexivity).
+  rewrite (zip_build_bfs ents m W N). f_equal.
+  rewrite decorate_dir, stamp_root_dir, embed_dir. f_equal.
+  rewrite !map_map. apply map_ext_in. intros e He. cbn [fst snd app]. f_equal.
+  apply (decorate_sub now tm (Dir ents m) W); [discriminate|].
+  simpl. apply wf_node_dir in W as (Hnd & _).
+  rewrite (In_assoc (fst e) (snd e) ents Hnd); [reflexivity|now destruct e].
+Qed.
+Print Assumptions zip_roundtrip.
